@@ -11,7 +11,7 @@ ASSUMPTIONS = [
     'the async code is driven by stepping coroutines by hand (no event loop); aiofiles / run_in_executor are stubs over the same virtual file system; TcpTransportAsync vs TcpTransport are compared in C18',
 ]
 BOUNDS = {
-    'quick': 'a fixed cross-section of the quick shapes of C01, C03, C04, C05, C07 (incl. all flush-boundary sizes and long device paths), C08, C09, C10, C11, C12, C13, C15',
+    'quick': 'a fixed cross-section of the quick shapes of the other checks: all of C05, C07 (sizes <= 20000), C03 checksum/command/readbytes, C12 reconnect, C15; every 2nd-9th shape of C01, C03 fragop, C04 ops, C08, C09, C10, C11, C12 faults; four C13 history prefixes; long device paths',
     'thorough': 'every quick shape of those checks (sync member of each sync/async pair)',
 }
 VALIDATE_EVERY = {'quick': 6, 'thorough': 10}
@@ -194,15 +194,17 @@ def shapes(tier, seed):
     mod = lambda n: importlib.import_module('sx.harness.' + n)
     every = (lambda n: n) if q else (lambda n: 1)
     add('C01', _pick(mod('c01').shapes('quick', seed), lambda s: sum(s['lens']) <= 4, every=every(9)))
-    add('C03', _pick(mod('c03').shapes('quick', seed), lambda s: s['h'] != 'readbytes' or s['L'] <= 4, every=every(3)))
+    add('C03', _pick(mod('c03').shapes('quick', seed), lambda s: s['h'] in ('checksum', 'command') or (s['h'] == 'readbytes' and s['L'] <= 4)))
+    add('C03', _pick(mod('c03').shapes('quick', seed), lambda s: s['h'] == 'fragop', every=every(3)))
     add('C04', _pick(mod('c04').shapes('quick', seed), lambda s: s['h'] == 'ops', every=every(4)))
-    add('C05', _pick(mod('c05').shapes('quick', seed), every=every(3)))
+    add('C05', _pick(mod('c05').shapes('quick', seed)))
     add('C07', _pick(mod('c07').shapes('quick', seed), lambda s: s['h'] != 'step' and s.get('size', 0) <= 20000))
     add('C08', _pick(mod('c08').shapes('quick', seed), lambda s: s.get('cuts', 0) <= 1 and not s.get('big'), every=every(2)))
     add('C09', _pick(mod('c09').shapes('quick', seed), lambda s: s.get('cuts', 0) <= 1, every=every(2)))
-    add('C10', _pick(mod('c10').shapes('quick', seed), every=every(3)))
+    add('C10', _pick(mod('c10').shapes('quick', seed), lambda s: s['h'] in ('pull_fail', 'push_fail', 'pull_badid', 'push_badid'), every=every(2)))
     add('C11', _pick(mod('c11').shapes('quick', seed), lambda s: s['h'] == 'stall', every=every(5)))
-    add('C12', _pick(mod('c12').shapes('quick', seed), every=every(3)))
+    add('C12', _pick(mod('c12').shapes('quick', seed), lambda s: s['h'] == 'fault', every=every(3)))
+    add('C12', _pick(mod('c12').shapes('quick', seed), lambda s: s['h'] != 'fault'))
     add('C13', _pick(mod('c13').shapes('quick', seed), lambda s: s['prefix'][0] in ('connect_ok', 'fail_timeout', 'pull_path', 'push_dir') or not q))
     add('C15', _pick(mod('c15').shapes('quick', seed), lambda s: s['h'] != 'short' or s['nshort'] == 1))
     # long device paths around the send-buffer boundary for list / stat / pull (path length close to maxdata)
